@@ -1633,15 +1633,25 @@ def _pure(ctx, R: Roles, o):
         if rn is None or not ecfg.is_reachable(rn):
             continue
         v = exe.expand(r.value, rn) if r.value is not None else None
+
+        def stored(e):
+            return e is not None and any(
+                isinstance(n, ast.Attribute) and isinstance(n.value, ast.Name) and n.value.id == entry.self_name
+                and not prog.find_getter(entry.cls, unmangle(n.attr)) and not prog.find_method(entry.cls, unmangle(n.attr))
+                for n in ast.walk(e))
+        if stored(r.value):
+            # (the flow engine would expand a field assigned on one branch only; the field read itself is the finding)
+            o.refute(entry, r, r.value, f"WBS.critical_path returns stored state `{src(r.value)}` instead of a result computed from the "
+                                        f"current graph: a cached path goes stale when links, hierarchy or amounts change")
+            continue
         fresh_calc = isinstance(v, ast.Call) and isinstance(v.func, ast.Attribute) and isinstance(v.func.value, ast.Call) \
             and getattr(v.func.value.func, 'id', None) == R.cls and unmangle(v.func.attr) == R.calc.name
         if fresh_calc and not ecfg.conditions(rn):
             o.site(entry, r, f"returns {src(v)[:80]}: computed from the current graph on every call")
         elif fresh_calc:
             o.undecided(entry, r, r, "the calculation is returned only under a condition")
-        elif v is not None and any(isinstance(n, ast.Attribute) and isinstance(n.value, ast.Name) and n.value.id == entry.self_name
-                                   and not ctx.prog.find_getter(entry.cls, unmangle(n.attr)) for n in ast.walk(v)):
-            o.refute(entry, r, r.value, f"WBS.critical_path returns stored state `{src(r.value)}` instead of a result computed from the "
+        elif stored(v):
+            o.refute(entry, r, r.value, f"WBS.critical_path returns stored state `{src(v)[:80]}` instead of a result computed from the "
                                         f"current graph: a cached path goes stale when links, hierarchy or amounts change")
         else:
             o.undecided(entry, r, r, "returned value is not <new calculator>.calc()")
